@@ -36,6 +36,19 @@ pub struct Ext {
 pub type Op = Operation<Ext>;
 type Prune = LogPrune<SqliteStore, LogPruneArgs<VerifyingKey, String, u32>, String, Ext>;
 
+
+/// Vacuity guard: `--require a,b` makes a run without a single occurrence of counter a or b a tool error.
+fn require_counters(out: &Outcome, args: &Args) {
+    if let Some(req) = args.extra.get("require") {
+        for c in req.split(',').filter(|c| !c.is_empty()) {
+            if out.counters.get(c).copied().unwrap_or(0) == 0 {
+                eprintln!("vacuous run: counter `{c}` is zero");
+                std::process::exit(2);
+            }
+        }
+    }
+}
+
 pub fn run(args: &Args) {
     match args.mode.as_str() {
         "replay" => replay(args),
@@ -238,7 +251,9 @@ impl World {
     }
 
     pub fn register(&mut self, op: &Op, info: Info) {
-        self.by_hash.insert(op.hash, info);
+        // a copy with a foreign BODY has the header (and hash) of the honest operation: rows with
+        // that hash are rows of the honest operation
+        self.by_hash.entry(op.hash).or_insert(info);
     }
 }
 
@@ -569,6 +584,7 @@ fn replay(args: &Args) {
             }
         }
     }
+    require_counters(&out, args);
     out.write(args);
 }
 
@@ -970,6 +986,7 @@ fn record(args: &Args) {
     }
     let (events, runs) = trace.finish();
     out.set_trace(events, runs);
+    require_counters(&out, args);
     out.write(args);
 }
 
